@@ -229,6 +229,7 @@ func (idx *FlatIndex) Remove(vector VectorNode) error {
 	}
 	alreadyDeleted := idx.deletedNodes.Contains(id)
 	idx.mu.RUnlock()
+	verifHook("flat.remove.checked", id)
 
 	// Fast-fail validation outside of write lock
 	if !exists {
@@ -369,6 +370,7 @@ func (idx *FlatIndex) WriteTo(w io.Writer) (int64, error) {
 		return 0, fmt.Errorf("failed to flush before serialization: %w", err)
 	}
 
+	verifHook("flat.writeto.flushed")
 	idx.mu.RLock()
 	defer idx.mu.RUnlock()
 
